@@ -719,3 +719,94 @@ def rule_SC1(ctx, rep, scope=None):
                         'reciprocal computed from it -- is 0 whatever the inputs')
     if n < 2:
         raise AnalysisError(f'SC1: only {n} bit-length dependent scale factors found (expected >= 2)')
+
+
+# ---------------------------------------------------------------------------------- FX6
+def _pair_pattern(fn, comp, lst, pm):
+    """(start, stride, (offset of first, offset of second)) of the positions of list `lst` that a pairing comprehension combines:
+    `[.. L[i] .. L[i+1] .. for i in range(a, n, 2)]` -> (a, 2, (0, 1));  `[.. for u, v in zip(L[s0::k], L[s1::k])]` -> (s0, k, (0, s1-s0))."""
+    from .linform import to_lin
+    if not (isinstance(comp, (ast.ListComp, ast.GeneratorExp)) and len(comp.generators) == 1 and not comp.generators[0].ifs):
+        return None
+    g = comp.generators[0]
+    it = g.iter
+    if isinstance(it, ast.Call) and isinstance(it.func, ast.Name) and it.func.id == 'range' and len(it.args) == 3 and isinstance(g.target, ast.Name):
+        iv = g.target.id
+        idx = sorted({norm(x.slice) for x in ast.walk(comp.elt) if isinstance(x, ast.Subscript) and isinstance(x.value, ast.Name) and x.value.id == lst})
+        offs = []
+        for t in idx:
+            l = to_lin(ast.parse(t, mode='eval').body, opaque=False)
+            if l is None or l.coef(iv) != 1 or len(l.syms()) != 1:
+                return None
+            offs.append(int(l.c))
+        if len(offs) != 2:
+            return None
+        return (cnorm_x(it.args[0]), norm(it.args[2]), tuple(sorted(offs)))
+    if isinstance(it, ast.Call) and isinstance(it.func, ast.Name) and it.func.id == 'zip' and len(it.args) == 2:
+        sl = []
+        for a in it.args:
+            if not (isinstance(a, ast.Subscript) and isinstance(a.value, ast.Name) and a.value.id == lst and isinstance(a.slice, ast.Slice) and a.slice.upper is None):
+                return None
+            lo = a.slice.lower if a.slice.lower is not None else ast.Constant(value=0)
+            st = a.slice.step if a.slice.step is not None else ast.Constant(value=1)
+            sl.append((lo, st))
+        if norm(sl[0][1]) != norm(sl[1][1]):
+            return None
+        l0, l1 = to_lin(sl[0][0], opaque=True), to_lin(sl[1][0], opaque=True)
+        if l0 is None or l1 is None or not (l1 - l0).is_const():
+            return None
+        return (cnorm_x(sl[0][0]), norm(sl[0][1]), (0, int((l1 - l0).c)))
+    return None
+
+
+def cnorm_x(e):
+    from .core import cnorm
+    return cnorm(e)
+
+
+def rule_FX6(ctx, rep):
+    """log-round product tree (Runtime.prod): the list of integrality marks is updated with exactly the pairs of positions whose
+    elements are multiplied in that round (same start, same stride, same neighbours), so that mark j keeps describing element j."""
+    fn = ctx.model.func('runtime::Runtime.prod')
+    pm = parents(fn.node)
+    loops = [w for w in iter_nodes(fn.node) if isinstance(w, ast.While)]
+    if len(loops) != 1:
+        raise AnalysisError('FX6: the round loop of Runtime.prod was not found')
+    w = loops[0]
+    from . import sem
+
+    def comps():
+        for c in iter_nodes(w):
+            if isinstance(c, (ast.ListComp, ast.GeneratorExp)):
+                yield c
+            elif isinstance(c, ast.For) and not c.orelse and len(c.body) == 1 and isinstance(c.body[0], ast.Expr) and isinstance(c.body[0].value, ast.Call) \
+                    and isinstance(c.body[0].value.func, ast.Attribute) and c.body[0].value.func.attr == 'append' and len(c.body[0].value.args) == 1:
+                # the loop form of the same list: for T in IT: L.append(E)
+                yield ast.ListComp(elt=c.body[0].value.args[0], generators=[ast.comprehension(target=c.target, iter=c.iter, ifs=[], is_async=0)])
+    allc = list(comps())
+    prods = [c for c in allc if isinstance(c.elt, ast.BinOp) and isinstance(c.elt.op, ast.Mult)]
+    markc = [c for c in allc if isinstance(c.elt, ast.BoolOp)]
+    marks = [s for s in iter_nodes(w) if isinstance(s, ast.Assign) and isinstance(s.targets[0], ast.Subscript) and isinstance(s.targets[0].value, ast.Name)
+             and isinstance(s.targets[0].slice, ast.Slice)
+             and (isinstance(s.value, (ast.ListComp, ast.GeneratorExp)) and isinstance(s.value.elt, ast.BoolOp) or isinstance(s.value, ast.Name) and len(markc) == 1)]
+    if len(prods) != 1 or len(marks) != 1:
+        rep.skip('FX6', fn, w, 'pairing comprehensions of products / marks not found in the recognised form')
+        return
+    xs = {x.value.id for x in ast.walk(prods[0].elt) if isinstance(x, ast.Subscript) and isinstance(x.value, ast.Name)}
+    if len(xs) != 1:
+        rep.skip('FX6', fn, prods[0], 'products are not taken from one list')
+        return
+    flagl = marks[0].targets[0].value.id
+    pp = _pair_pattern(fn, prods[0], xs.pop(), pm)
+    # marks written as u and v over zip(..): the element reads names, not subscripts
+    mp_ = _pair_pattern(fn, marks[0].value if not isinstance(marks[0].value, ast.Name) else markc[0], flagl, pm)
+    tslice = marks[0].targets[0].slice
+    tstart = cnorm_x(tslice.lower) if isinstance(tslice, ast.Slice) and tslice.lower is not None else '0'
+    if pp is None or mp_ is None:
+        rep.skip('FX6', fn, marks[0], 'pairing pattern not recognised')
+    elif pp == mp_ and tstart == pp[0]:
+        rep.ok('FX6', fn, marks[0], f'marks are combined for the same pairs of positions as the products (from {pp[0]}, stride {pp[1]})')
+    else:
+        rep.bad('FX6', fn, marks[0], f'the integrality marks are combined for positions starting at {mp_[0]} (stride {mp_[1]}, neighbours {mp_[2]}) but the products are formed '
+                f'for positions starting at {pp[0]} (stride {pp[1]}, neighbours {pp[2]}): for an odd number of elements every mark describes the wrong element, '
+                'so an exact shift is applied to a non-integral product (or a truncation to an integral one)')
